@@ -24,8 +24,16 @@ type Scenario struct {
 	Policy  simrt.Policy `json:"policy"`
 	MapBase string       `json:"map_base,omitempty"`
 	ChSeed  uint64       `json:"chooser_seed"`
+	Phase2  *Phase2Spec  `json:"phase2,omitempty"` // single graph only: after a clean first Run, extend the graph and Run it again
 	Family  string       `json:"family,omitempty"` // graph shape family / sweep tag (informational)
 	Mode    string       `json:"mode,omitempty"`   // canonical | permuted | wild
+}
+
+// Phase2Spec: more construction calls and possibly a new limit, applied after the first Run
+// returned nil with every task successful; then Run is called again on the same graph.
+type Phase2Spec struct {
+	Build  []Call `json:"build"`
+	MaxPar int    `json:"max_par,omitempty"` // >0: SetMaxParallel(MaxPar) before the second Run
 }
 
 type TaskSpec struct {
@@ -117,10 +125,17 @@ type Model struct {
 // Model returns the declared graph of g0; ModelFor that of graph g (calls can be per graph).
 func (sc *Scenario) Model() *Model { return sc.ModelFor(0) }
 
-func (sc *Scenario) ModelFor(g int) *Model {
+func (sc *Scenario) ModelFor(g int) *Model { return sc.ModelForPhase(g, 1) }
+
+// ModelForPhase: phase 2 = the graph after the phase-2 construction calls were applied as well.
+func (sc *Scenario) ModelForPhase(g, phase int) *Model {
 	m := &Model{Exists: make([]bool, sc.N), Deps: make([][]int, sc.N), Retries: make([]int, sc.N)}
 	hasEdge := make([]bool, sc.N)
-	for _, c := range sc.Build {
+	calls := sc.Build
+	if phase == 2 && sc.Phase2 != nil {
+		calls = append(append([]Call(nil), sc.Build...), sc.Phase2.Build...)
+	}
+	for _, c := range calls {
 		if c.Only != 0 && c.Only != g+1 {
 			continue
 		}
@@ -228,7 +243,7 @@ type GenOpts struct {
 	Thorough bool
 }
 
-var tickChoices = []int64{0, 1, 1_000_000, 1_000_000_000, 60_000_000_000}
+var tickChoices = []int64{0, 1, 1_000_000, 1_000_000, 1_000_000_000, 60_000_000_000, -1}
 
 func genPolicy(r *simrt.RNG) (simrt.Policy, string) {
 	p := simrt.Policy{}
@@ -470,8 +485,11 @@ func genAttempts(r *simrt.RNG, retries int, faulty bool, faultP int, buffer bool
 		}
 		if buffer {
 			a.Chunks = []int{0, 1, 2, 3, 5}[r.Intn(5)]
-			if a.Chunks > 0 && r.Intn(40) == 0 {
+			if r.Intn(12) == 0 {
 				a.Big = true
+				if a.Chunks < 2 {
+					a.Chunks = 2 + r.Intn(2)
+				}
 			}
 		}
 		if stall && k == 0 {
@@ -606,6 +624,60 @@ func Generate(seed uint64, o GenOpts) *Scenario {
 	}
 	maxCalls := 30
 	sc.Build = buildCalls(r, sc.N, deps, retries, sc.Mode, maxCalls)
+	// Run twice: a fault-free first phase, then new tasks (depending on old and new ones), possibly
+	// a lower limit, possibly a cycle that passes through an already completed vertex.
+	if sc.Graphs == 1 && r.Intn(100) < 12 && sc.N < 12 {
+		for i := range sc.Tasks {
+			for k := range sc.Tasks[i].Attempts[:len(sc.Tasks[i].Attempts)-1] {
+				sc.Tasks[i].Attempts[k].Res = "ok"
+				sc.Tasks[i].Attempts[k].Cancel = ""
+				if sc.Tasks[i].Attempts[k].Dur > 5 {
+					sc.Tasks[i].Attempts[k].Dur = 2
+				}
+			}
+		}
+		sc.Cancel.Kind = "none"
+		old := sc.N
+		nnew := 1 + r.Intn(4)
+		if old+nnew > 14 {
+			nnew = 14 - old
+		}
+		p2 := &Phase2Spec{}
+		for j := 0; j < nnew; j++ {
+			id := old + j
+			ret := []int{0, 0, 1, 2}[r.Intn(4)]
+			ts := TaskSpec{Attempts: genAttempts(r, ret, faulty, faultP, sc.Buffer, false)}
+			ts.Attempts = append(ts.Attempts, AttemptSpec{Res: "err", Dur: 1})
+			sc.Tasks = append(sc.Tasks, ts)
+			var ds []int
+			for d := 0; d < id; d++ {
+				if r.Intn(3) == 0 {
+					ds = append(ds, d)
+				}
+			}
+			if len(ds) == 0 || r.Intn(3) == 0 {
+				p2.Build = append(p2.Build, Call{Op: "add", T: id})
+			}
+			if ret != 0 {
+				p2.Build = append(p2.Build, Call{Op: "retries", T: id, R: ret})
+			}
+			if len(ds) > 0 {
+				p2.Build = append(p2.Build, Call{Op: "dep", T: id, Deps: ds})
+			}
+		}
+		sc.N = old + nnew
+		if r.Intn(4) == 0 {
+			p2.MaxPar = 1 + r.Intn(2)
+		}
+		if r.Intn(5) == 0 { // a cycle through a vertex that completed in the first run
+			a, c := r.Intn(old), old+r.Intn(nnew)
+			p2.Build = append(p2.Build, Call{Op: "dep", T: c, Deps: []int{a}}, Call{Op: "dep", T: a, Deps: []int{c}})
+		}
+		if r.Intn(3) == 0 { // re-add of an old task and read-only calls in between
+			p2.Build = append(p2.Build, Call{Op: "add", T: r.Intn(old)}, Call{Op: "dfs"})
+		}
+		sc.Phase2 = p2
+	}
 	// Two graphs: sometimes one id is represented by two distinct *Task objects (same ID and
 	// behaviour). g1 is given the alternate object, g0 first the primary one and later, through a
 	// re-AddTask, the alternate one: the Task object both graphs end up holding is shared and must
